@@ -15,7 +15,7 @@ type vpF struct {
 	us   []int // variable indices (kind 9)
 }
 
-var vpVarNames = []string{"a", "b", "c", "d", "e", "f"}
+var vpVarNames = []string{"a", "b", "c", "d", "e", "f", "g", "h", "i"}
 
 // vpEval evaluates under x (possibly symbolic booleans), building a term.
 func vpEval(f *vpF, x []bool) bool {
@@ -170,8 +170,105 @@ func vpGenSpine(d int, i int) (*vpF, Formula) {
 	return &vpF{kind: 5, kids: []*vpF{a, b}}, Or(fa, fb)
 }
 
+// vpGenWide: a wide disjunction (or conjunction) of k signed literals and one
+// conjunction (or disjunction) of two literals, placed first or last.
+func vpGenWide(K int) (*vpF, Formula) {
+	leaf := func(i int) (*vpF, Formula) {
+		var a *vpF = &vpF{kind: 0, v: i}
+		var f Formula = Var(vpVarNames[i])
+		if zzvp.Choose("sign", 2) == 1 {
+			return &vpF{kind: 3, kids: []*vpF{a}}, Not(f)
+		}
+		return a, f
+	}
+	k := zzvp.Choose("width", K+1)
+	outerOr := zzvp.Choose("outer", 2) == 0
+	i1, f1 := leaf(k)
+	i2, f2 := leaf(k + 1)
+	var inner *vpF
+	var innerF Formula
+	if outerOr {
+		inner, innerF = &vpF{kind: 4, kids: []*vpF{i1, i2}}, And(f1, f2)
+	} else {
+		inner, innerF = &vpF{kind: 5, kids: []*vpF{i1, i2}}, Or(f1, f2)
+	}
+	var kids []*vpF
+	var fs []Formula
+	for i := 0; i < k; i++ {
+		a, f := leaf(i)
+		kids, fs = append(kids, a), append(fs, f)
+	}
+	if zzvp.Choose("inner-first", 2) == 1 {
+		kids, fs = append([]*vpF{inner}, kids...), append([]Formula{innerF}, fs...)
+	} else {
+		kids, fs = append(kids, inner), append(fs, innerF)
+	}
+	if outerOr {
+		return &vpF{kind: 5, kids: kids}, Or(fs...)
+	}
+	return &vpF{kind: 4, kids: kids}, And(fs...)
+}
+
+// vpGenChain: a chain of D equivalences / exclusive-ors over signed leaves,
+// nested to the left or to the right (each Eq/Xor duplicates its operands in
+// the translation, so sub-formulas repeat under different guards).
+func vpGenChain(D int) (*vpF, Formula) {
+	leaf := func(i int) (*vpF, Formula) {
+		var a *vpF = &vpF{kind: 0, v: i}
+		var f Formula = Var(vpVarNames[i])
+		if zzvp.Choose("sign", 2) == 1 {
+			return &vpF{kind: 3, kids: []*vpF{a}}, Not(f)
+		}
+		return a, f
+	}
+	nv := zzvp.Param("chainvars", D+1)
+	left := zzvp.Choose("nest-left", 2) == 1
+	acc, accF := leaf(0)
+	for i := 1; i <= D; i++ {
+		b, fb := leaf(i % nv)
+		kind := 7
+		if zzvp.Choose("op", 2) == 1 {
+			kind = 8
+		}
+		mk := func(x, y Formula) Formula {
+			if kind == 7 {
+				return Eq(x, y)
+			}
+			return Xor(x, y)
+		}
+		if left {
+			acc, accF = &vpF{kind: kind, kids: []*vpF{acc, b}}, mk(accF, fb)
+		} else {
+			acc, accF = &vpF{kind: kind, kids: []*vpF{b, acc}}, mk(fb, accF)
+		}
+	}
+	return acc, accF
+}
+
 // vpGenAny picks the generator according to the parameters.
 func vpGenAny(c *vpGenCfg) (*vpF, Formula) {
+	if w := zzvp.Param("wide", 0); w > 0 {
+		return vpGenWide(w)
+	}
+	if d := zzvp.Param("chain", 0); d > 0 {
+		ast, f := vpGenChain(d)
+		if zzvp.Param("context", 0) == 1 {
+			kids := []*vpF{ast}
+			fs := []Formula{f}
+			for i := 0; i < zzvp.Param("chainvars", d+1); i++ {
+				switch zzvp.Choose("ctx", 3) {
+				case 1:
+					kids = append(kids, &vpF{kind: 0, v: i})
+					fs = append(fs, Var(vpVarNames[i]))
+				case 2:
+					kids = append(kids, &vpF{kind: 3, kids: []*vpF{{kind: 0, v: i}}})
+					fs = append(fs, Not(Var(vpVarNames[i])))
+				}
+			}
+			return &vpF{kind: 4, kids: kids}, And(fs...)
+		}
+		return ast, f
+	}
 	if d := zzvp.Param("spine", 0); d > 0 {
 		ast, f := vpGenSpine(d, 0)
 		if zzvp.Param("context", 0) == 1 {
